@@ -96,7 +96,7 @@ def backend_monitors(chk, hit, scenarios):
                 hit("dkg_keys_unknown", sc, "an accepted key list contains a key the harness cannot account for: " + tag)
         if sc["deviation"] == "none" and len(oks) != sc["n"]:
             hit("dkg_honest_fails", sc, "all parties honest and every message delivered, yet KeyGen did not return Ok everywhere: " + tag)
-        if sc["deviation"] in ("wrongreveal", "wrongcommit") and oks:
+        if sc["deviation"] in ("wrongreveal", "wrongcommit", "commit-lastbyte", "commit-firstbyte") and oks:
             hit("dkg_mismatch_accepted", sc, "a revealed key that does not match its commitment was accepted: " + tag)
         if sc["deviation"] in ("offpoly",) and sc["t"] < sc["n"] and oks:
             hit("dkg_offpoly_accepted", sc, "keys not on one polynomial were accepted: " + tag)
@@ -158,7 +158,7 @@ def run(pid, tier, seed):
     chk.cov["rule"] = ("backend level: real bls.TBLS (and ps.TPS) key generators, one goroutine per KeyGen, every message handed over by "
                        "a seeded scheduler (early, late, duplicated, out of phase), crypto/rand.Reader seeded so that every dealt "
                        "polynomial is known; (n,t) in {(3,2),(3,3),(4,2),(4,3),(4,4)} (+ (2,2),(5,3),(5,5) thorough); everybody honest "
-                       "and one deviating participant from a catalogue of 16 deviations x victim sets; each honest party's experienced "
+                       "and one deviating participant from a catalogue of 18 deviations x victim sets; each honest party's experienced "
                        "event list is replayed on the Coq model in the exponent and verdict / sk / key exponents / threshold key / "
                        "broadcast order compared exactly; C05/C01 monitors on the real results. full stack: threshold.LoudScheme and "
                        "SilentScheme with the real disc/rbc/msg over an in-memory per-link-FIFO network with a seeded scheduler. "
@@ -180,7 +180,8 @@ def run(pid, tier, seed):
         "proved for the RBC layer in Props/C02.v, C03.v; the full-stack runs exercise the composition on the real code",
         "SHA-256 commitments are modelled as an injective function; curve groups as modules over Z/r; pairing bilinear (BLS.v)",
         "mpc/ps is driven by the same harness with monitors only (its key vectors are not replayed on the Coq model)",
-        "silent mode inherits the known findings of msg.Box (C14): see KNOWN_FINDINGS.txt",
+        "orchestrated signing in loud mode is live only up to known finding C01-a (KNOWN_FINDINGS.txt); the silent-mode stall that followed "
+        "from C14-a was repaired in msg.Box (b40b5e7) and did not reproduce in any run",
     ])
 
 
